@@ -135,7 +135,10 @@ def check(run):
     rets = [n for n in q.walk(tg.node, False) if isinstance(n, ast.Return)]
     run.check(len(rets) == 1 and q.unparse(rets[0].value).replace(' ', '') in ('self._time+self._elapsed', 'self._elapsed+self._time'), r, tg.short, 'time = _time + _elapsed', 'differs', tg.node)
     init = ck.methods.get('__init__')
-    vals = {q.unparse(n.targets[0]): q.unparse(n.value) for n in q.walk(init.node) if isinstance(n, ast.Assign)}
+    dflt = q.param_defaults(init.node)      # a field initialised from a parameter starts at the default of that parameter (the documented constructor call is SimulatedClock())
+    vals = {q.unparse(n.targets[0]): (repr(dflt[n.value.id]) if isinstance(n.value, ast.Name) and n.value.id in dflt and
+                                      not any(isinstance(x, ast.Name) and x.id == n.value.id and isinstance(x.ctx, ast.Store) for x in q.walk(init.node)) else q.unparse(n.value))
+            for n in q.walk(init.node) if isinstance(n, ast.Assign)}
     run.check(vals.get('self._time') == '0' and vals.get('self._play') == 'False' and vals.get('self._speed') == '1', r, init.short, 'starts at 0, stopped, speed 1', 'initial values %s' % vals, init.node)
     rr = prog.resolve_global('sismic.clock.clock', 'time')
     run.check(rr == ('external', 'time.time'), r, 'sismic.clock.clock', 'time() is time.time', 'time() resolves to %s' % (rr,), None)
